@@ -1,7 +1,7 @@
 #!/bin/bash
 # tools/verify_queue.sh <ID>... : verify every mutation delivered under /tmp/mut/<ID>/MUTATION/<n>
 for id in "$@"; do
-  for d in /tmp/mut/$id/MUTATION/[0-9]*; do
+  for d in /verif/seeded_incoming/$id/[0-9]*; do
     n=$(basename "$d"); name="$id-$n"
     [ -f /verif/seeded/$name/verify.log ] && grep -q -E "CONFIRMED|BAD|NOT-APPLY|CONFLICT|NOT-BUILD" /verif/seeded/$name/verify.log && continue
     p="$d/patch.diff"; [ -f /verif/seeded/$name/patch.diff ] && p=/verif/seeded/$name/patch.diff
